@@ -16,7 +16,7 @@ CLAIMED = {
    design="DESIGN.md §3 C14"),
  "C11": dict(
    technique="bounded-exhaustive enumeration (E1): all 256 header bytes x payload lengths 0..80 x fill patterns, all pointer triples over width classes, all single (thorough: pair) byte corruptions of Byron addresses, through strict parsers and embedded in outputs, vs a CIP-19 reference classifier",
-   text="Every header byte at every length 0..80 is run through Address::from_bytes/from_hex/from_bech32 and embedded in TransactionOutput (both forms) and TransactionUnspentOutput; acceptance, kind, network, credentials and pointer values must equal a 60-line CIP-19 classifier, accepted addresses must survive bytes/hex/Bech32 (default + arbitrary prefixes)/JSON, invalid embedded bytes must come back verbatim as Malformed. Byron: all attribute combinations built by an independent CBOR+CRC32 encoder, every single-byte (thorough: every pair) corruption, trailing bytes, malformed Base58/Bech32 text.",
+   text="Every header byte at every length 0..80 is run through Address::from_bytes/from_hex/from_bech32 and embedded in TransactionOutput (both forms) and TransactionUnspentOutput; acceptance, kind, network, credentials and pointer values must equal a 60-line CIP-19 classifier, accepted addresses must survive bytes/hex/Bech32 (default + arbitrary prefixes)/JSON, invalid embedded bytes must come back verbatim as Malformed. Byron: all attribute combinations (3 payloads x 13 protocol magics incl. the explicit mainnet magic and the CBOR width edges x 3 roots x 3 types) built by an independent CBOR+CRC32 encoder, every single-byte (thorough: every pair) corruption, trailing bytes, malformed Base58/Bech32 text.",
    note="Trusted: my CIP-19 transcription, own CRC32/base58, bech32 crate for test-input encoding. Hash content is 3 fill patterns. One known finding (embedded address + trailing bytes re-encoded without them).",
    design="DESIGN.md §3 C11"),
  "C20": dict(
@@ -41,7 +41,7 @@ CLAIMED = {
    design="DESIGN.md §3 C17"),
  "C02": dict(
    technique="bounded-exhaustive enumeration (E1) of malformed inputs on every public parsing entry point: all byte strings of length <= 2, all single-deviation mutants of generated valid encodings, nesting to depth 256, oversized lengths; inputs that can trigger an allocation abort are re-executed in child processes (fault isolation)",
-   text="145 byte-level entry points (every codec type, raw hash/key/signature parsers, FixedTransaction, ByronAddress, has_transaction_set_tag) x all 65 793 byte strings of length <= 2; ~1 000 valid seed encodings (generators at deviation <= 1) x every truncation point, 20 structural substitutions at every position, inserted break/null/container heads at every gap, every head rewritten to 0/n-1/n+1/n+2, definite->indefinite heads, duplicated tail entries, every length head rewritten to 2^16..2^63; five container kinds nested to depth 256 in 15 recursive/enclosing types; malformed hex for every from_hex, every single-node replacement inside each type's own JSON, malformed Bech32/Base58/decimal text for 21 text parsers, 56 documents for 13 free helpers. Oracle: the call returns (no panic, no abort), and an accepted value re-serialises to exactly one well-formed CBOR item for an independent reader. Choice vectors whose input could make the CBOR reader allocate a declared length are re-executed one by one in child processes so that an abort is attributed to one input.",
+   text="145 byte-level entry points (every codec type, raw hash/key/signature parsers, FixedTransaction, ByronAddress, has_transaction_set_tag) x all 65 793 byte strings of length <= 2; ~1 000 valid seed encodings (generators at deviation <= 1) x every truncation point, 20 structural substitutions at every position, inserted break/null/container heads at every gap, every head rewritten to 0/n-1/n+1/n+2, definite->indefinite heads, duplicated tail entries, every length head rewritten to 2^16..2^63; five container kinds nested to depth 256 in 15 recursive/enclosing types; malformed hex for every from_hex, every single-node replacement inside each type's own JSON, malformed Bech32/Base58/decimal text for 21 text parsers, ~300 documents for 13 free helpers (incl. string atoms with a multi-byte character at byte offsets 0-3 in every string position). Oracle: the call returns (no panic, no abort), and an accepted value re-serialises to exactly one well-formed CBOR item for an independent reader. Choice vectors whose input could make the CBOR reader allocate a declared length are re-executed one by one in child processes so that an abort is attributed to one input.",
    note="Trusted: refcbor. Nesting > 256 out of scope. Two known findings (allocation of declared lengths inside cbor_event; lenient length checks + byte-preserving types re-emit malformed input). Thorough adds all pairs of substitutions on seeds <= 64 bytes.",
    design="DESIGN.md §3 C02"),
  "C03": dict(
@@ -51,7 +51,7 @@ CLAIMED = {
    design="DESIGN.md §3 C03"),
  "C05": dict(
    technique="explicit-state model checking (E2): breadth-first search over builder operation histories on the real TransactionBuilder with canonical-state deduplication; in every state every balancing method x configuration is executed (RNG answers within 1 deviation) and the built transaction is re-parsed and summed by an independent ledger oracle; model/implementation conformance checked in every state",
-   text="Histories to depth 3 (thorough 4) over 35 operations (8 inputs of key/Byron/native-script owners with ADA at three widths and 1-3 asset policies, 5 requested outputs, 9 certificates covering every deposit/refund class, 2 withdrawals, native mint / burn / two-name mint, proposal, donation, 4 fee requests, collateral, metadata); ~10 000 distinct builder states; in each, 5 (thorough 9) balancing methods x 4 (5) configurations (default, prefer_pure_change, max_value_size=70 forcing split asset change, coins_per_byte=1, do_not_burn_extra_change). Whenever balancing and build_tx succeed the transaction bytes are parsed by refcbor, inputs resolved in the scenario's UTxO table, and consumed == produced checked in u128 for lovelace and every asset id with the harness's deposit/refund table. The parsed body is also compared with the plain reference model of the history (inputs, certificates, withdrawals, mint, proposals, donation, collateral).",
+   text="Histories to depth 3 over 44 operations (11 inputs of key/Byron/native-script/Plutus owners with ADA at three widths and 1-3 asset policies, an input added twice, 5 requested outputs, 9 certificates covering every deposit/refund class, key withdrawals incl. one of 0 lovelace and re-adding an account with another amount, native mint / burn / two-name mint, proposal, donation, 4 fee requests, collateral, metadata, declared reference scripts); in each distinct builder state, 5 (thorough 9) balancing methods x 7 (9) configurations (default, prefer_pure_change, max_value_size=70 forcing split asset change, coins_per_byte=1, do_not_burn_extra_change, reference-input de-duplication, a 76-byte Byron change address with prefer_pure_change / with max_value_size=70, the older per-item entry points add_key_input / add_bootstrap_input / add_native_script_input / set_certs / set_withdrawals / set_mint); thorough adds depth 4 over a 32-operation core alphabet. Whenever balancing and build_tx succeed the transaction bytes are parsed by refcbor, inputs resolved in the scenario's UTxO table, and consumed == produced checked in u128 for lovelace and every asset id with the harness's deposit/refund table. The parsed body is also compared with the plain reference model of the history (inputs, certificates, withdrawals, mint, proposals, donation, collateral).",
    note="Trusted: ledger rules transcription (notes/ledger_rules.md §1), refcbor, the scenario's UTxO table. State key = digest of the Debug rendering of the real sub-builders plus the model (finer than necessary, never coarser).",
    design="DESIGN.md §3 C05"),
  "C06": dict(
@@ -61,17 +61,17 @@ CLAIMED = {
    design="DESIGN.md §3 C06"),
  "C09": dict(
    technique="explicit-state model checking (E2) over histories of Plutus uses on the real builder + bounded-exhaustive enumeration (E1) of the stand-alone hashing helpers; oracle recomputes both hashes from byte spans cut out of the emitted transaction",
-   text="Histories to depth 5 (thorough 6) over Plutus spends (V1/V2/V3; script inline or by reference; datum in the witness set or inline), Plutus mint, script certificates, Plutus / native / key withdrawals, script and key voters, extra datums (new and duplicate of a spend datum), metadata; calc_script_data_hash before and after balancing. From the built bytes refcbor cuts the raw spans of witness fields 5 and 4 and of the auxiliary data; body[11] must equal blake2b256(redeemers-or-A0 || datums-if-present || language views of exactly the languages in use) with the harness's own language-view encoder, body[7] must equal blake2b256(aux span). hash_script_data / hash_auxiliary_data / hash_plutus_data are compared with the bytes a witness set built through the typed setters emits for the same arguments (redeemers {0,1,2} x map/array container x 6 datum arguments incl. duplicates and an indefinite-decoded list x 4 cost-model tables).",
+   text="Histories to depth 5 (thorough 6) over 35 operations: Plutus spends (V1/V2/V3, the same bytes under two languages, three inputs under one script; script inline or by reference; datum in the witness set or inline), two Plutus mint policies, script certificates, two Plutus / native / key withdrawals, script and key voters (two Plutus), plain and Plutus-guarded proposals, extra datums (new and duplicate of a spend datum), metadata; calc_script_data_hash before and after balancing. From the built bytes refcbor cuts the raw spans of witness fields 5 and 4 and of the auxiliary data; body[11] must equal blake2b256(redeemers-or-A0 || datums-if-present || language views of exactly the languages in use) with the harness's own language-view encoder, body[7] must equal blake2b256(aux span). hash_script_data / hash_auxiliary_data / hash_plutus_data are compared with the bytes a witness set built through the typed setters emits for the same arguments (redeemers {0,1,2} x map/array container x 6 datum arguments incl. duplicates and an indefinite-decoded list x 4 cost-model tables).",
    note="Trusted: notes/ledger_rules.md §6, cryptoxide blake2b. Precondition from the property: the hash is computed after the last script item was added.",
    design="DESIGN.md §3 C09"),
  "C10": dict(
    technique="explicit-state model checking (E2): BFS over all insertion orders of script and non-script items on the real builder; oracle resolves every emitted redeemer pointer in the re-parsed body by the ledger's ordering rules",
-   text="Histories to depth 5 (thorough 6) over key and Plutus inputs on adversarial outpoints (hash order != index order != insertion order), native and Plutus policies, key and script certificates, key / native-script / Plutus withdrawals, committee key / committee script / DRep script voters; every redeemer's data is a unique integer naming the item it was attached to. For each (tag, index) in the emitted witness set the item is resolved in the parsed body (inputs sorted by (txid, ix); policies bytewise; certificates in sequence; reward accounts in the ledger's RewardAccount order - script before key; voters in the ledger's Voter order) and must be the named item; no two redeemers share a pointer.",
+   text="Histories to depth 5 (thorough 6) over 35 operations with at least two Plutus items in every redeemer purpose: key and Plutus inputs on adversarial outpoints (hash order != index order != insertion order; three inputs under one script), native and two Plutus policies, key and script certificates, key / native-script / two Plutus withdrawals, committee key / committee script / two Plutus voters, plain and two Plutus-guarded proposals; every redeemer's data is a unique integer naming the item it was attached to. For each (tag, index) in the emitted witness set the item is resolved in the parsed body (inputs sorted by (txid, ix); policies bytewise; certificates in sequence; reward accounts in the ledger's RewardAccount order - script before key; voters in the ledger's Voter order; proposals in sequence) and must be the named item; no two redeemers share a pointer.",
    note="Trusted: notes/ledger_rules.md §5. BFS visits every order of every multiset of operations, which is the permutation differential of the design.",
    design="DESIGN.md §3 C10"),
  "C18": dict(
    technique="explicit-state model checking (E2): BFS over histories mixing every witness source on the real builder; oracle = script availability exactly once + size of the really signed transaction",
-   text="Histories to depth 4 (thorough 5) over 38 operations: key inputs sharing a key, Byron input, native-script inputs (inline / by reference with declared signers), Plutus inputs V1/V2/V3 (inline or reference script, witness or inline datum), collateral (same / different key), certificates of every witness class, key / native / Plutus withdrawals, five voter kinds, native and Plutus mints, required signers (new / already needed), explicit reference inputs (plain, with script size, equal to a regular input, with and without the de-duplication flag), extra datums, metadata. For every built transaction: each script-locked item has its script exactly once (witness set, or reference input present in body[18], never both unless another use supplies it inline), witness datums exactly the supplied ones once, one redeemer per Plutus use, and 0 <= full_size() - |transaction signed by exactly witsVKeyNeeded + one bootstrap witness per Byron address| < 101.",
+   text="Histories to depth 4 (thorough 5) over 42 operations x 3 configurations (default, reference-input de-duplication, older entry points): key inputs sharing a key, three Byron inputs over two addresses, native-script inputs (inline / by reference with declared signers), Plutus inputs V1/V2/V3 (the same bytes under two languages; two inputs under one script; inline or reference script, witness or inline datum), collateral (same / different key), certificates of every witness class, key / native / Plutus withdrawals, five voter kinds, native and Plutus mints, required signers (new / already needed), explicit reference inputs (plain, with script size, equal to a regular input, with and without the de-duplication flag), extra datums, metadata. For every built transaction: each script-locked item has its script exactly once (witness set, or reference input present in body[18], never both unless another use supplies it inline), witness datums exactly the supplied ones once, one redeemer per Plutus use, and 0 <= full_size() - |transaction signed by exactly witsVKeyNeeded + one bootstrap witness per Byron address| < 101.",
    note="Trusted: notes/ledger_rules.md §4, ledger.rs. Script hashes recomputed by the harness with cryptoxide.",
    design="DESIGN.md §3 C18"),
  "C08": dict(
@@ -81,12 +81,12 @@ CLAIMED = {
    design="DESIGN.md §3 C08"),
  "C19": dict(
    technique="bounded-exhaustive enumeration (E1): full product of collateral input sets x helper entry points x boundary arguments x both call orders on the real builder; the body fields 13/16/17 are re-parsed and judged as an equation on whole values",
-   text="Collateral input sets of size 1..3 over 5 candidates (ADA at three widths, ADA + asset A, ADA + A + B) x set_collateral_return_and_total with 9 return coins (around the return's own min-ADA, around the input total, 0, 2^16) x 6 asset choices (exactly the inputs' assets, fewer, more, a different asset, none, partial) and set_total_collateral_and_return with 9 totals (0, 1, around inputs - min-ADA, = inputs, > inputs, 2^16, 2^32) x coins_per_byte {4310, 1} x both orders of collateral vs balancing; the percentage helper over collateral sets x percentages {0, 1, 99, 100, 150, 2^32, 2^64-1} x 3 output sizes x 2 strategies (RNG answers all explored). Oracle on the parsed body: table values of body[13] == value(body[16]) + body[17] for lovelace and every asset, return >= coins_per_byte*(160+size), total >= ceil(fee*pct/100), and after an Err neither field is set.",
+   text="Collateral input sets of size 1..3 (thorough 1..5) over 5 candidates (ADA at three widths, ADA + asset A, ADA + A + B) x set_collateral_return_and_total with 9 return coins (around the return's own min-ADA, around the input total, 0, 2^16) x 6 asset choices (exactly the inputs' assets, fewer, more, a different asset, none, partial) and set_total_collateral_and_return with 9 totals (0, 1, around inputs - min-ADA, = inputs, > inputs, 2^16, 2^32) x coins_per_byte {4310, 1} x both orders of collateral vs balancing; the percentage helper over collateral sets x percentages {0, 1, 99, 100, 150, 2^32, 2^64-1} x 4 output sizes (one beyond everything offered) x 2 strategies (RNG answers all explored). Oracle on the parsed body: table values of body[13] == value(body[16]) + body[17] for lovelace and every asset, return >= coins_per_byte*(160+size), total >= ceil(fee*pct/100), and after an Err neither field is set.",
    note="Trusted: notes/ledger_rules.md §7, refcbor. Raw pass-through setters excluded by the reading in DESIGN.",
    design="DESIGN.md §3 C19"),
  "C16": dict(
    technique="bounded-exhaustive enumeration (E1) of insertion histories with repeats x arrival paths on the real collection types, witness-set setters and asset maps, against a first-insertion-order / canonical-order reference model; explicit-state BFS (E2) over builder histories with every end state rebuilt 12 times under 4 hash-container seeds",
-   text="sets: all histories of length <= 4 (thorough 6) over 4 elements into TransactionInputs, Ed25519KeyHashes, Credentials, Certificates, VotingProposals, Vkeywitnesses, BootstrapWitnesses x {add, bytes tagged/untagged x definite/indefinite, JSON, decode-a-prefix-then-add at every split, inside a TransactionBody (fields 0, 13, 18, 14, 4, 20) / TransactionWitnessSet (0, 2)}; items cut from the emitted bytes == history with later repeats dropped, also after JSON/bytes round trip and clone; len/get/add-return agree. witness_setters: histories <= 4 (5) over 4 native scripts, 4 Plutus scripts, 5 datums (same value constructed / decoded / decoded non-canonical). asset_maps: <= 3 (4) insertions over 3 policies x 4 names (lengths 0,1,1,2) through MultiAsset::set_asset, Assets+MultiAsset::insert, Value, decoding unsorted bytes / JSON, add_mint_asset, MintBuilder, set_mint; key order length-first canonical at both levels and content == model. builder: BFS to depth 4 (5) over 39 ops x 2 configs x 2 finishing methods; byte-identical rebuilds (object, clone, 4 hash seeds), no repeated element in any set-typed field of the built transaction, every value and mint canonical.",
+   text="sets: all histories of length <= 4 (thorough 6) over 4 elements into TransactionInputs, Ed25519KeyHashes, Credentials, Certificates, VotingProposals, Vkeywitnesses, BootstrapWitnesses x {add, bytes tagged/untagged x definite/indefinite, JSON, decode-a-prefix-then-add at every split, inside a TransactionBody (fields 0, 13, 18, 14, 4, 20) / TransactionWitnessSet (0, 2)}; items cut from the emitted bytes == history with later repeats dropped, also after JSON/bytes round trip and clone; len/get/add-return agree. witness_setters: histories <= 4 (5) over 4 native scripts, 4 Plutus scripts, 5 datums (same value constructed / decoded / decoded non-canonical). asset_maps: <= 3 (4) insertions over 3 policies x 4 names (lengths 0,1,1,2) through MultiAsset::set_asset, Assets+MultiAsset::insert, Value, decoding unsorted bytes / JSON, add_mint_asset, MintBuilder, set_mint; key order length-first canonical at both levels and content == model. builder: BFS to depth 4 (5) over 42 ops x 3 configs (default, reference-input de-duplication, older entry points) x 2 finishing methods; byte-identical rebuilds (object, clone, 4 hash seeds), no repeated element in any set-typed field of the built transaction, every value and mint canonical.",
    note="Trusted: refcbor; RFC 8949 length-first key order. Hash-order seam: verif-hooks feature (seeded HashMap/HashSet in the builder).",
    design="DESIGN.md §3 C16"),
  "C04": dict(
